@@ -215,6 +215,7 @@ type RouteWorld struct {
 	intraSent        map[taskKey][]intraHop // multi-instance: intra-proxy streams a task was written to
 	intraStreams     []*simio.Stream
 	intraEnds        map[*simio.Stream][2]string // opener, peer
+	intraWroteAt     map[*simio.Stream]int       // decision of the last task-bearing message written to the stream
 
 	faultsLeft int
 	faults     map[string]int
@@ -325,7 +326,7 @@ func (w *RouteWorld) shard(id ShardID) *shardModel {
 // routing mode (cluster_connection.go: getRoutingParameters).
 func NewRouteWorld(s *simrt.Sim, prof RouteProfile) *RouteWorld {
 	w := &RouteWorld{s: s, prof: prof, confirmed: map[taskKey]bool{}, deliveries: map[taskKey][]delivery{},
-		toProxy: map[taskKey]bool{}, readAt: map[taskKey]int{}, readInc: map[taskKey]int{}, readCount: map[taskKey]int{}, faults: map[string]int{}, ackedUnconfirmed: map[taskKey]bool{}, intraSent: map[taskKey][]intraHop{}, intraEnds: map[*simio.Stream][2]string{}}
+		toProxy: map[taskKey]bool{}, readAt: map[taskKey]int{}, readInc: map[taskKey]int{}, readCount: map[taskKey]int{}, faults: map[string]int{}, ackedUnconfirmed: map[taskKey]bool{}, intraSent: map[taskKey][]intraHop{}, intraEnds: map[*simio.Stream][2]string{}, intraWroteAt: map[*simio.Stream]int{}}
 	w.cfg = drawRouteConfig(s, prof)
 	s.SetPKeep(w.cfg.PKeep)
 	w.faultsLeft = w.cfg.FaultBudget
@@ -438,6 +439,9 @@ func NewRouteWorld(s *simrt.Sim, prof RouteProfile) *RouteWorld {
 				// instance that opened it (the one that owned the target shard when it did)
 				st.OnS2C = func(m *simio.Res) {
 					if msgs := m.GetMessages(); msgs != nil {
+						if len(msgs.ReplicationTasks) > 0 {
+							w.intraWroteAt[st] = w.s.Stats.Decisions
+						}
 						for _, t := range msgs.ReplicationTasks {
 							if t.RawTaskInfo != nil {
 								if k, ok := parseMarker(t.RawTaskInfo.RunId); ok {
@@ -1125,6 +1129,24 @@ func (w *RouteWorld) Actions() []simrt.Action {
 			}
 		}
 	}
+	// the network between two instances fails for one intra-proxy stream (connection reset):
+	// both ends see their next operation fail; whatever was in flight on it is gone
+	if w.prof.Multi && w.prof.Faults && w.faultDue() {
+		for _, st := range w.intraStreams {
+			st := st
+			if !st.Dead() {
+				// preferably while a task message has just been written to the stream
+				fw := 1
+				if at, ok := w.intraWroteAt[st]; ok && w.s.Stats.Decisions-at < 40 {
+					fw = 2
+				}
+				add("FAULT intra-break:"+st.Name, fw, true, func() {
+					w.fault("intra-break")
+					st.Break(status.Error(codes.Unavailable, "connection reset by peer"))
+				})
+			}
+		}
+	}
 	// the failure detector of each surviving instance reports a crashed one some time later
 	for _, d := range w.pendingDead {
 		d := d
@@ -1231,6 +1253,10 @@ func (w *RouteWorld) Actions() []simrt.Action {
 				if w.prof.BiasFaults && w.tgtInFlight(c) {
 					fw = 3
 				}
+				if w.prof.Multi && w.intraInFlightTo(c.inst) {
+					// a task is on its intra-proxy hop towards this stream's instance right now
+					fw = 4
+				}
 				add("FAULT tgt-cancel:"+c.st.Name, fw, true, func() { w.fault("tgt-cancel"); c.cancel() })
 				add("FAULT tgt-break:"+c.st.Name, fw, true, func() {
 					w.fault("tgt-break")
@@ -1312,6 +1338,17 @@ func (w *RouteWorld) srcInFlight(sh *shardModel) bool {
 					return true
 				}
 			}
+		}
+	}
+	return false
+}
+
+// intraInFlightTo: a task-bearing message was written within the last few decisions to an
+// intra-proxy stream that the given instance opened (i.e. it is travelling towards it).
+func (w *RouteWorld) intraInFlightTo(in *rInst) bool {
+	for st, at := range w.intraWroteAt {
+		if w.s.Stats.Decisions-at < 40 && !st.Dead() && w.intraEnds[st][0] == in.name {
+			return true
 		}
 	}
 	return false
@@ -1441,6 +1478,22 @@ func (w *RouteWorld) endChecks() {
 			// the tail is quiescent: the proxy has finished processing the last ack it read
 			for _, r := range c.rounds {
 				w.checkRoundPhase(c, r, true)
+			}
+		}
+	}
+	// whatever has failed: the proxy never puts a task on target streams more often than it has
+	// read it from the source (a re-read after a source restart may be forwarded again; a task
+	// read once and forwarded twice is a duplicate of the proxy's own making)
+	for _, sh := range w.allShards() {
+		for _, t := range sh.log {
+			k := taskKey{sh.sid(), t.id}
+			if n := len(w.deliveries[k]); n > 0 && n > w.readCount[k] {
+				var where []string
+				for _, d := range w.deliveries[k] {
+					where = append(where, fmt.Sprintf("%s as proxy id %d", d.conn.st.Name, d.proxyID))
+				}
+				w.violate("C02", "duplicated-by-proxy", "task %s/%d was read from its source %d time(s) but put on target streams %d times: %s", sidStr(k.src), k.id, w.readCount[k], n, strings.Join(where, "; "))
+				break
 			}
 		}
 	}
@@ -1825,10 +1878,11 @@ func (w *RouteWorld) checkRoundPhase(c *tgtConn, r *ackRound, final bool) {
 		if i >= r.nTracked || t.key == (taskKey{}) || t.proxyID > r.w {
 			continue
 		}
-		if t.proxyID > r.prevW {
-			if cur, ok := need[t.key.src]; !ok || t.key.id > cur {
-				need[t.key.src] = t.key.id
-			}
+		// every task the target held at a proxy id <= w when it emitted the ack - not only those
+		// above the previous ack: an entry appended at exactly the previous watermark after that
+		// ack was aggregated belongs to no interval (prev, w] and must not fall through
+		if cur, ok := need[t.key.src]; !ok || t.key.id > cur {
+			need[t.key.src] = t.key.id
 		}
 	}
 	prevVals := map[ShardID]int64{}
@@ -1843,8 +1897,20 @@ func (w *RouteWorld) checkRoundPhase(c *tgtConn, r *ackRound, final bool) {
 	if !first {
 		need = nil
 	}
+	// what each source has been told on this stream up to and including this round
+	told := map[ShardID]int64{}
+	for _, pr := range c.rounds {
+		for s, v := range pr.delivered {
+			if v > told[s] {
+				told[s] = v
+			}
+		}
+		if pr == r {
+			break
+		}
+	}
 	for src, m := range need {
-		v, ok := r.delivered[src]
+		v, ok := told[src]
 		if !ok {
 			hist := ""
 			for _, pr := range c.rounds {
